@@ -17,6 +17,7 @@ import (
 	"strconv"
 	"strings"
 	"sync"
+	"syscall"
 	"time"
 )
 
@@ -305,22 +306,98 @@ func Die(prop string, c interface{}, f *Failure) {
 	os.Exit(3)
 }
 
+// CPUTime is the CPU time (user + system) this process has consumed so far.
+func CPUTime() time.Duration {
+	var ru syscall.Rusage
+	if err := syscall.Getrusage(syscall.RUSAGE_SELF, &ru); err != nil {
+		return 0
+	}
+	return time.Duration(ru.Utime.Nano() + ru.Stime.Nano())
+}
+
+// Patience decides that something "does not return": it has run out when BOTH that much wall-clock
+// time has passed AND the process has consumed that much CPU time since it was started (or Reset).
+// Code that never returns spins or loops, so the CPU clock advances with it; a machine that is
+// stalled (a suspended or snapshotted VM, a badly overloaded host) advances the wall clock only,
+// and must never be mistaken for a hang.
+type Patience struct {
+	d    time.Duration
+	wall time.Time
+	cpu  time.Duration
+}
+
+func StartPatience(d time.Duration) *Patience {
+	return &Patience{d: d, wall: time.Now(), cpu: CPUTime()}
+}
+
+func (p *Patience) Reset() { p.wall, p.cpu = time.Now(), CPUTime() }
+
+func (p *Patience) Expired() bool {
+	return time.Since(p.wall) >= p.d && CPUTime()-p.cpu >= p.d
+}
+
+// After runs f (once, on its own goroutine) when the patience has run out, unless the returned
+// stop function was called before.
+func (p *Patience) After(f func()) (stop func()) {
+	var (
+		mu      sync.Mutex
+		stopped bool
+		t       *time.Timer
+		check   func()
+	)
+	check = func() {
+		mu.Lock()
+		defer mu.Unlock()
+		if stopped {
+			return
+		}
+		if p.Expired() {
+			stopped = true
+			go f()
+			return
+		}
+		t = time.AfterFunc(250*time.Millisecond, check)
+	}
+	mu.Lock()
+	t = time.AfterFunc(p.d, check)
+	mu.Unlock()
+	return func() {
+		mu.Lock()
+		stopped = true
+		t.Stop()
+		mu.Unlock()
+	}
+}
+
+// Wait waits for ch to deliver or be closed; it returns false when the patience ran out first.
+func (p *Patience) Wait(ch <-chan struct{}) bool {
+	for {
+		select {
+		case <-ch:
+			return true
+		case <-time.After(20 * time.Millisecond):
+			if p.Expired() {
+				return false
+			}
+		}
+	}
+}
+
 // GuardPatience is how long one generated case may take before Guard gives up
-// on it. Cases take milliseconds; the margin covers a loaded machine.
-const GuardPatience = 45 * time.Second
+// on it (wall-clock and CPU time, see Patience). Cases take milliseconds.
+const GuardPatience = 30 * time.Second
 
 // Guard arms a watchdog for one generated case and returns the function that
-// disarms it. If the case is still running after GuardPatience the code under
+// disarms it. If the case is still running - and burning CPU - after GuardPatience the code under
 // test is taken to be in a loop it never leaves (no listed property holds for
 // an operation that does not return); the case is reported, unshrunk, through
 // Die. what() names the operation in progress, if the check tracks it.
 func Guard(prop string, c interface{}, what func() string) func() {
-	t := time.AfterFunc(GuardPatience, func() {
+	return StartPatience(GuardPatience).After(func() {
 		w := ""
 		if what != nil {
 			w = " (" + what() + ")"
 		}
-		Die(prop, c, Failf("the case did not finish within %v%s: an operation of the code under test does not return", GuardPatience, w))
+		Die(prop, c, Failf("the case did not finish within %v of wall-clock and of CPU time%s: an operation of the code under test does not return", GuardPatience, w))
 	})
-	return func() { t.Stop() }
 }
